@@ -53,6 +53,8 @@ func detRoot(root string, types []string) string {
 		return "{\n  \"p\": @r1 | @r2,\n  \"q\": @r3 | @r4\n}"
 	case "refs-a":
 		return `{"p": @a}`
+	case "heir-of-i":
+		return "{ // {allOf: \"@i\"}\n  \"rk\": 1\n}"
 	case "refs-all":
 		var parts []string
 		sorted := append([]string{}, types...)
